@@ -103,7 +103,7 @@ func histories(r *Run) {
 	}
 	for s := 0; s < steps; s++ {
 		t.Begin("step")
-		op := t.Pick([]int{5, 2, 2, 2, 2, 4, 2, 1, 1}, "op")
+		op := t.Pick([]int{5, 2, 2, 2, 2, 4, 2, 1, 1, 1}, "op")
 		name := ""
 		switch op {
 		case 0:
@@ -148,6 +148,44 @@ func histories(r *Run) {
 				w.hostileRecoveryKind(r, "stale-same-setid")
 			}
 			r.Probe("stale-recovery-arrives")
+		case 9:
+			// a write of this Repair fails (disk full, torn write): the
+			// ordinary failed-Repair oracle applies, in particular a Repair
+			// that nevertheless reports success must have restored everything
+			name = "repair-write-fault"
+			kind := []simdisk.Kind{simdisk.WriteENOSPC, simdisk.WriteTorn, simdisk.WriteTruncErr}[t.Draw(3, "fault-kind")]
+			plan := []simdisk.Fault{{NthWrite: 1 + t.Draw(3, "fault-write"), Kind: kind, KeepPermille: t.Draw(1001, "keep")}}
+			before := w.Disk.Snapshot()
+			var rep *OpResult
+			if w.Par1 {
+				rep = r.Repair1(w, w.Index, false, plan)
+			} else {
+				rep = r.Repair2(w, w.Index, 1+t.Draw(4, "g"), false, plan, SchedSpec{})
+			}
+			r.noPanic(rep)
+			fired := false
+			for _, a := range rep.Log {
+				if a.Fault != simdisk.None {
+					fired = true
+				}
+			}
+			if fired {
+				r.Probe("repair-write-fault-fired")
+				if rep.Err == nil {
+					r.Violate("success-not-restored", "Repair returned success although its write of %s failed", rep.Log[len(rep.Log)-1].Resolved)
+				}
+			} else if rep.Err == nil && !w.AllIntact() {
+				r.Violate("success-not-restored", "Repair returned success but %s", w.FirstDamaged())
+			}
+			for p, prev := range before {
+				if w.isProtectedPath(p) {
+					continue
+				}
+				if cur, ok := w.Disk.Get(p); !ok || string(cur) != string(prev) {
+					r.Violate("failed-repair-worsened", "a Repair with a failing write changed %s", p)
+				}
+			}
+			lastRepairOK = false
 		case 8:
 			// the process is killed in the middle of a Repair: the write in
 			// progress is torn, nothing after it happens, no result is seen
